@@ -313,7 +313,8 @@ PROPS['C06'] = floor_prop(
     {'ev': None, 'now': None, 'ran': None, 'd': _c.fields('part', 'out', 'down', 'cyc', 'off'),
      'rec': _c.only(('received_part', 'produced_part', 'device_failure', 'supplied_new_part'))},
     ('rec received_part',), 'non-trivial = a part was accepted by a device',
-    families=[('floor', 100, 2000), ('floorc', 50, 1000), ('floors', 150, 3000), ('floorq', 60, 1000)],
+    # floork: cycle times set / one-shot offsets given while a part is held and from outside before the first run
+    families=[('floor', 100, 2000), ('floorc', 50, 1000), ('floors', 150, 3000), ('floorq', 60, 1000), ('floork', 60, 1000)],
     impl_only_families=[('floorr', 80, 1500)])
 
 
